@@ -229,6 +229,37 @@ theorem xlsb_sheet_cells_terminate (ctx : Xlsb.Ctx) (bs : Xlsb.Bytes) : Xlsb.she
 theorem xlsb_shared_strings_no_panic (bs : Xlsb.Bytes) (m : String) : Xlsb.readSharedStrings bs ≠ .panic m :=
   Xlsb.readSharedStrings_no_panic bs m
 
+/-! ## the container glue and the style tables (collected after the coverage extension) -/
+
+/-- xlsx: the relationships part, the sheet table of `Xlsx::new` and opening a sheet by name are TOTAL on arbitrary
+    event lists / archives -/
+theorem xlsx_container_total {α : Type} (a : XlsxContainer.Archive α) (evs : List Meta.Ev) (name : String) :
+    ((∃ r, XlsxContainer.readRelationships evs = .ok r) ∨ (∃ e, XlsxContainer.readRelationships evs = .err e)) ∧
+    ((∃ t, XlsxContainer.sheetTable a = .ok t) ∨ (∃ e, XlsxContainer.sheetTable a = .err e)) ∧
+    ((∃ c, XlsxContainer.openSheet a name = .ok c) ∨ (∃ e, XlsxContainer.openSheet a name = .err e)) :=
+  ⟨XlsxContainer.relationships_total evs, XlsxContainer.sheet_table_total a, XlsxContainer.open_sheet_total a name⟩
+
+/-- xlsb: the relationships part and resolving a sheet name to its part are TOTAL -/
+theorem xlsb_container_total (cfg : Rels.Cfg) (evs : List Rels.Ev) (bk : XlsbBook.Book) (parts : XlsbBook.Parts)
+    (name : Meta.Text) :
+    ((∃ v, Rels.readRels cfg evs = .ok v) ∨ (∃ e, Rels.readRels cfg evs = .err e)) ∧
+    ((∃ b, XlsbBook.sheetPart bk parts name = .ok b) ∨ (∃ e, XlsbBook.sheetPart bk parts name = .err e)) :=
+  ⟨XlsbBook.rels_total cfg evs, XlsbBook.sheet_part_total bk parts name⟩
+
+/-- the style-table decoders of the three containers never panic: xls `parse_xf` / `parse_format` and the FORMAT / XF
+    arms of the globals loop on any record list and any byte stream, xlsb `read_styles` on any bytes, xlsx
+    `read_styles` on any event list (which always ends with a table or an error) -/
+theorem style_decoders_no_panic (data stream part : Formats.Bytes) (recs : List (Nat × Formats.Bytes))
+    (evs : List Formats.SEv) (m : String) :
+    Formats.xlsParseXf data ≠ .panic m ∧ Formats.xlsParseFormat data ≠ .panic m ∧
+    Formats.xlsStylesOfRecords recs ≠ .panic m ∧ Formats.xlsStylesOfStream stream ≠ .panic m ∧
+    Formats.xlsbStylesOfBytes part ≠ .panic m ∧ Formats.xlsxStylesOfEvents evs ≠ .panic m ∧
+    ((∃ t, Formats.xlsxStylesOfEvents evs = .ok t) ∨ (∃ e, Formats.xlsxStylesOfEvents evs = .err e)) :=
+  ⟨Formats.xls_parse_xf_no_panic data m, Formats.xls_parse_format_no_panic data m,
+   Formats.xls_styles_records_no_panic recs m, Formats.xls_styles_stream_no_panic stream m,
+   Formats.xlsb_styles_bytes_no_panic part m, Formats.xlsx_styles_events_no_panic evs m,
+   Formats.xlsx_styles_events_total evs⟩
+
 /-! ## VBA -/
 
 /-- `decompress_stream` is total: bytes or an error on every byte string (after the C18 follow-up repaired the
